@@ -7,7 +7,7 @@ Import ListNotations.
 Require Import ITree.Model.Common ITree.Model.RBTree ITree.Model.MapModel ITree.Spec.MapSpec.
 Require Import ITree.Proofs.RBElems ITree.Proofs.RBInv ITree.Proofs.MapProofs ITree.Proofs.MapTheorems.
 Require ITree.Model.KeyModel ITree.Proofs.KeyListProofs ITree.Proofs.KeyTheorems.
-Require ITree.Model.ArenaModel ITree.Proofs.ArenaProofs.
+Require ITree.Model.ArenaModel ITree.Proofs.ArenaProofs ITree.Model.ArenaDelete ITree.Proofs.ArenaDeleteProofs.
 
 (* insertion (the shared core of MapTree / SetTree / KeyExpTree::insert) keeps red-black validity *)
 Theorem C02_insert_rb : forall (ent: Type) (key_of: ent -> Z) (t: tree ent) (slot: N) (e: ent),
@@ -79,3 +79,32 @@ Proof. exact ArenaProofs.arena_map_insert. Qed.
 Theorem C02_snapshot_is_rep : forall (fuel: nat) (s: ArenaModel.astate) (p x: N) (t: tree ment),
   ArenaProofs.read_tree fuel s p x = Some t -> ArenaProofs.Rep s p x t.
 Proof. exact ArenaProofs.read_tree_sound. Qed.
+
+(* removal on the parent-pointer code (Model/ArenaDelete.v: delete_index with the successor's entity
+   copied into the node, the sentinel slot 0 linked as a red leaf in place of a removed black leaf,
+   fix_red_black_properties_after_delete with its six cases, handle_red_sibling,
+   handle_black_sibling_with_at_least_one_red_child, find_left_minimum): from an arena representing a
+   valid red-black tree with consistent links, not using the sentinel slot, the arena-level removal
+   of a stored slot terminates within height-many iterations of each loop, never indexes the arena
+   with EMPTY_REF, returns the slot the tree-level model frees, represents the tree-level result with
+   consistent links again (the sentinel is unlinked), and writes nothing outside the tree's slots and
+   the sentinel *)
+Theorem C02_arena_delete : forall (s: ArenaModel.astate) (t: tree ment) (x: N) (fuel: nat),
+  ArenaProofs.Rep s ArenaModel.EMPTY (ArenaModel.aroot s) t -> List.NoDup (slots ment t) ->
+  ~ List.In 0%N (slots ment t) -> rbi ment t -> List.In x (slots ment t) -> (height ment t <= fuel)%nat ->
+  exists t' d f s', del ment t x = Done t' d f /\
+    ArenaDelete.arena_delete fuel s x = Ret (s', f) /\
+    ArenaProofs.Rep s' ArenaModel.EMPTY (ArenaModel.aroot s') t' /\
+    ArenaDeleteProofs.same_off (0%N :: slots ment t) s s'.
+Proof. exact ArenaDeleteProofs.arena_delete_refines_frame. Qed.
+
+(* ... and as one step of the map / set (delete through a handle), with the pool taking the slot back *)
+Theorem C02_arena_map_delete : forall (a: ArenaModel.astate) (s: mstate) (x: N) (e: ment),
+  MInv s -> List.In (x, e) (elements ment (root s)) ->
+  ArenaProofs.Rep a ArenaModel.EMPTY (ArenaModel.aroot a) (root s) ->
+  exists s' a' f, m_delete_at s x = Ret s' /\
+    ArenaDelete.arena_delete (height ment (root s)) a x = Ret (a', f) /\
+    pl s' = Pool.pool_put (pl s) f /\
+    ArenaProofs.Rep a' ArenaModel.EMPTY (ArenaModel.aroot a') (root s') /\ MInv s' /\
+    (forall j, ~ List.In j (slots ment (root s)) -> j <> 0%N -> ArenaModel.nodes a' j = ArenaModel.nodes a j).
+Proof. exact ArenaDeleteProofs.arena_map_delete_at. Qed.
